@@ -44,6 +44,19 @@ Theorem C27_answer_is_requested_slice : forall c, cfg_okb c = true -> forall sp 
 Proof. exact answer_spec. Qed.
 Print Assumptions C27_answer_is_requested_slice.
 
+(* (2b) Byte-wide generators (all USB2 descriptors): the answer's payloads are literally the slice
+        data[sp .. sp + min(ml, len - sp)), and the ROM words of such a generator are the constant's bytes. *)
+Theorem C27_bytewide_answer_is_slice : forall c, cfg_okb c = true -> c_bpw c = 1 -> forall sp ml,
+  sp < nwords c -> 0 < ml ->
+  map b_payload (answer c sp ml) =
+  firstn (N.to_nat (N.min ml (nwords c - sp))) (skipn (N.to_nat sp) (c_words c)).
+Proof. exact answer_bytewide. Qed.
+Print Assumptions C27_bytewide_answer_is_slice.
+
+Theorem C27_bytewide_rom_is_data : forall data mlw, c_words (cfg_of_bytes data 1 false mlw) = data.
+Proof. exact cfg_of_bytes_bytewide_words. Qed.
+Print Assumptions C27_bytewide_rom_is_data.
+
 (* (3) Nothing is emitted (and no done pulse) for a request whose length limit is zero. *)
 Theorem C27_zero_limit_ignored : forall c ml0 i, i_ml c i = 0 ->
   sp_next c (SpIdle ml0) i = SpIdle 0 /\ sp_out c (SpIdle ml0) = pack_quiet c false ml0.
